@@ -37,7 +37,8 @@ struct Controller {
     uint64_t horizon = T0 + 5000000;             // beyond this, a pending deadline no longer keeps the case alive
     std::map<long, Action> schedule;             // step -> action
     long handoffs = 0, preemptions = 0, busy_handoffs = 0, clock_jumps = 0, idles = 0;
-    long lonely_spins = 0;
+    long lonely_spins = 0, spin_advances = 0;
+    long busy_streak = 0;                        // busy-wait hand-overs in a row without anybody blocking, finishing or waking someone
     long since_handoff = 0;                      // schedule points taken by the running participant since it got the token
     std::function<std::string()> on_deadlock;    // optional: extra state for the deadlock report
     std::function<void()> on_quiescence;         // called (token held) when nobody can run any more within the horizon
@@ -107,6 +108,7 @@ struct Controller {
         // A retry loop without a pause instruction (e.g. MPMC pop waiting for a ticket holder to publish) only
         // passes ordinary schedule points; after many of them in a row treat it as the busy-wait it is.
         if (++since_handoff > 300 && kind != PHOTON_VERIF_SP_BUSYWAIT && next_runnable(me) >= 0) kind = PHOTON_VERIF_SP_BUSYWAIT;
+        if (since_handoff > 50) busy_streak = 0;   // this participant computes, it does not just spin
         if (kind == PHOTON_VERIF_SP_BUSYWAIT) {
             int nx = next_runnable(me);
             if (nx < 0) {
@@ -127,6 +129,12 @@ struct Controller {
                     quiescence();
                 }
             }
+            // Everybody who can run only spins (e.g. OS threads retrying a full ring) while the ones they wait for
+            // sleep in virtual time: spinning takes time, so let the clock reach the earliest deadline.
+            if (++busy_streak > 4 * (long)p.size() + 8) {
+                int b = advance(me);
+                if (b >= 0) { nx = b; busy_streak = 0; spin_advances++; }
+            }
             busy_handoffs++;
             if (nx != me) handoff(me, nx);
             return;
@@ -142,7 +150,7 @@ struct Controller {
     // ---- engine side
     void idle(int me, uint64_t timeout) {
         if (p[me].cancel) { p[me].cancel = false; return; }
-        idles++;
+        idles++; busy_streak = 0;
         p[me].state = P_IDLE;
         p[me].deadline = (timeout > FOREVER - vnow) ? FOREVER : vnow + timeout;
         int nx = next_runnable(me);
@@ -153,10 +161,12 @@ struct Controller {
         p[me].cancel = false;
     }
     void cancel(int k) {
+        busy_streak = 0;
         p[k].cancel = true;
         if (p[k].state == P_IDLE) p[k].state = P_RUN;
     }
     void done(int me) {
+        busy_streak = 0;
         p[me].state = P_DONE;
         int nx = next_runnable(me);
         if (nx < 0) nx = advance(me);
